@@ -1,4 +1,285 @@
+/-
+C20 — lemmas about the interpreted `run()` (`Model/Cli.lean`): guards reached before any data is touched end the
+program with their exit code; expressions depend only on the options they mention.
+-/
 import TapkeeVerif.Model.Cli
 import TapkeeVerif.Proofs.CliSpec
+
 namespace TapkeeVerif.Cli
+open TapkeeVerif.Gen.Cli
+
+/-! ## a guard that is reached and true ends the run with a non-zero status -/
+
+/-- the steps that may precede a guard in `reachesGuard` leave the run-time facts untouched -/
+theorem rtOf_files_effects (s : St) (f : List (String × Str)) (e : List String) :
+    rtOf { s with files := f, effects := e } = rtOf s := rfl
+
+/-- If a guard with condition `c` is reached (in the sense of `reachesGuard`) and `c` evaluates to true — for every
+    state of the run-time facts — then `run()` returns a non-zero status, whatever the other options are. -/
+theorem runSteps_guard_nonzero (rows : List OptRow) (maps : List NameMap) (wiring : List WireRow)
+    (catches : List (String × Nat)) (readFile : String → Option Str) (lib : Lib) (o : Opts) (c : Expr)
+    (hc : ∀ rt, evalCond rows maps rt o c = some true) :
+    ∀ (steps : List Step) (s : St), reachesGuard c steps = true →
+      (runSteps rows maps wiring catches readFile lib o steps s).exit ≠ 0
+  | [], _, h => by simp [reachesGuard] at h
+  | .guard g :: rest, s, h => by
+    simp only [reachesGuard, Bool.and_eq_true, bne_iff_ne, ne_eq, Bool.or_eq_true, beq_iff_eq] at h
+    obtain ⟨hne, hcase⟩ := h
+    unfold runSteps
+    simp only
+    cases hg : evalCond rows maps (rtOf s) o g.cond with
+    | none => simp [St.done]
+    | some b =>
+      cases b with
+      | true => simpa [St.done] using hne
+      | false =>
+        rcases hcase with heq | hrest
+        · rw [heq, hc] at hg
+          cases hg
+        · simpa using runSteps_guard_nonzero rows maps wiring catches readFile lib o c hc rest s hrest
+  | .effect e what :: rest, s, h => by
+    simp only [reachesGuard] at h
+    unfold runSteps
+    simp only
+    cases evalCond rows maps (rtOf s) o e with
+    | none => simp [St.done]
+    | some b =>
+      cases b with
+      | true => simpa using runSteps_guard_nonzero rows maps wiring catches readFile lib o c hc rest _ h
+      | false => simpa using runSteps_guard_nonzero rows maps wiring catches readFile lib o c hc rest s h
+  | .openIn f :: rest, s, h => by
+    simp only [reachesGuard] at h
+    unfold runSteps
+    simpa using runSteps_guard_nonzero rows maps wiring catches readFile lib o c hc rest s h
+  | .openOut f :: rest, s, h => by
+    simp only [reachesGuard] at h
+    unfold runSteps
+    simp only
+    cases fileName rows maps o f with
+    | none => simp [St.done]
+    | some name => simpa using runSteps_guard_nonzero rows maps wiring catches readFile lib o c hc rest _ h
+  | .readData .. :: _, _, h => by simp [reachesGuard] at h
+  | .transpose .. :: _, _, h => by simp [reachesGuard] at h
+  | .embed .. :: _, _, h => by simp [reachesGuard] at h
+  | .writeMatrix .. :: _, _, h => by simp [reachesGuard] at h
+  | .writeVector .. :: _, _, h => by simp [reachesGuard] at h
+  | .ret _ :: _, _, h => by simp [reachesGuard] at h
+
+/-- the same for `main()`: either cxxopts already refuses the command line (exit code of the catch clause), or the
+    guard fires -/
+theorem mainWith_guard_nonzero (rows : List OptRow) (maps : List NameMap) (wiring : List WireRow) (steps : List Step)
+    (catches : List (String × Nat)) (readFile : String → Option Str) (lib : Lib) (o : Opts) (c : Expr)
+    (hcatch : catchExit catches ≠ 0) (hreach : reachesGuard c steps = true)
+    (hc : ∀ rt, evalCond rows maps rt o c = some true) :
+    (mainWith rows maps wiring steps catches readFile lib o).exit ≠ 0 := by
+  unfold mainWith
+  split
+  · simpa using hcatch
+  · exact runSteps_guard_nonzero rows maps wiring catches readFile lib o c hc steps {} hreach
+
+/-- ragged rows: if `read_data` is reached (only non-zero guards, logging switches and stream openings before it) and
+    the rows it collects have unequal lengths, the run ends with a non-zero status — an earlier guard's, or the
+    catch clause's of main() for the `std::runtime_error` thrown by `read_data`. -/
+theorem runSteps_ragged_nonzero (rows : List OptRow) (maps : List NameMap) (wiring : List WireRow)
+    (catches : List (String × Nat)) (readFile : String → Option Str) (lib : Lib) (o : Opts) (f d : Expr)
+    (hcatch : catchExit catches ≠ 0)
+    (hrag : ∀ name dl, fileName rows maps o f = some name → delimOf rows maps o d = some dl →
+      ∃ content i, readFile name = some content ∧ matrixOfRows (readRows parseNum dl content) = .error (.ragged i)) :
+    ∀ (steps : List Step) (s : St), reachesRead f d steps = true →
+      (runSteps rows maps wiring catches readFile lib o steps s).exit ≠ 0
+  | [], _, h => by simp [reachesRead] at h
+  | .guard g :: rest, s, h => by
+    simp only [reachesRead, Bool.and_eq_true, bne_iff_ne, ne_eq] at h
+    obtain ⟨hne, hrest⟩ := h
+    unfold runSteps
+    simp only
+    cases hg : evalCond rows maps (rtOf s) o g.cond with
+    | none => simp [St.done]
+    | some b =>
+      cases b with
+      | true => simpa [St.done] using hne
+      | false => simpa using runSteps_ragged_nonzero rows maps wiring catches readFile lib o f d hcatch hrag rest s hrest
+  | .effect e what :: rest, s, h => by
+    simp only [reachesRead] at h
+    unfold runSteps
+    simp only
+    cases evalCond rows maps (rtOf s) o e with
+    | none => simp [St.done]
+    | some b =>
+      cases b with
+      | true => simpa using runSteps_ragged_nonzero rows maps wiring catches readFile lib o f d hcatch hrag rest _ h
+      | false => simpa using runSteps_ragged_nonzero rows maps wiring catches readFile lib o f d hcatch hrag rest s h
+  | .openIn _ :: rest, s, h => by
+    simp only [reachesRead] at h
+    unfold runSteps
+    simpa using runSteps_ragged_nonzero rows maps wiring catches readFile lib o f d hcatch hrag rest s h
+  | .openOut f' :: rest, s, h => by
+    simp only [reachesRead] at h
+    unfold runSteps
+    simp only
+    cases fileName rows maps o f' with
+    | none => simp [St.done]
+    | some name => simpa using runSteps_ragged_nonzero rows maps wiring catches readFile lib o f d hcatch hrag rest _ h
+  | .readData c t f' d' :: rest, s, h => by
+    simp only [reachesRead, Bool.and_eq_true, beq_iff_eq] at h
+    obtain ⟨⟨⟨rfl, rfl⟩, rfl⟩, rfl⟩ := h
+    unfold runSteps
+    simp only
+    have hc : evalCond rows maps (rtOf s) o (.lit .flag "true") = some true := by
+      simp [evalCond, eval, litVal, Val.truthy]
+    rw [hc]
+    cases hf : fileName rows maps o f' with
+    | none => simp [St.done]
+    | some name =>
+      cases hd : delimOf rows maps o d' with
+      | none => simp [St.done]
+      | some dl =>
+        obtain ⟨content, i, hread, herr⟩ := hrag name dl hf hd
+        simp [hread, herr, St.done, hcatch]
+  | .transpose .. :: _, _, h => by simp [reachesRead] at h
+  | .embed .. :: _, _, h => by simp [reachesRead] at h
+  | .writeMatrix .. :: _, _, h => by simp [reachesRead] at h
+  | .writeVector .. :: _, _, h => by simp [reachesRead] at h
+  | .ret _ :: _, _, h => by simp [reachesRead] at h
+
+/-! ## single data steps -/
+
+theorem evalCond_count (rows : List OptRow) (maps : List NameMap) (rt : Runtime) (o : Opts) (x : String) :
+    evalCond rows maps rt o (.count x) = some (decide (0 < countOf o x)) := by
+  simp only [evalCond, eval, Val.truthy]
+  by_cases h : countOf o x = 0
+  · simp [h]
+  · have hp : 0 < countOf o x := Nat.pos_of_ne_zero h
+    simp [hp, h]
+
+theorem evalCond_not_count (rows : List OptRow) (maps : List NameMap) (rt : Runtime) (o : Opts) (x : String) :
+    evalCond rows maps rt o (.not (.count x)) = some (!decide (0 < countOf o x)) := by
+  simp only [evalCond, eval, Val.truthy]
+  by_cases h : countOf o x = 0
+  · simp [h]
+  · have hp : 0 < countOf o x := Nat.pos_of_ne_zero h
+    simp [hp, h]
+
+/-- `if (!opt.count("transpose-input")) input_data.transposeInPlace();` -/
+theorem runSteps_transpose_input (rows : List OptRow) (maps : List NameMap) (wiring : List WireRow)
+    (catches : List (String × Nat)) (readFile : String → Option Str) (lib : Lib) (o : Opts) (x : String)
+    (rest : List Step) (s : St) (F : DMat Rat) (hF : s.input = some F) :
+    runSteps rows maps wiring catches readFile lib o (.transpose (.not (.count x)) "input" :: rest) s =
+      runSteps rows maps wiring catches readFile lib o rest
+        { s with input := some (libraryInput (decide (0 < countOf o x)) F) } := by
+  rw [runSteps]
+  simp only [evalCond_not_count]
+  by_cases h : 0 < countOf o x
+  · simp [h, libraryInput, ← hF]
+  · simp [h, libraryInput, hF]
+
+/-- `if (opt.count("transpose-output")) output.embedding.transposeInPlace();` -/
+theorem runSteps_transpose_output (rows : List OptRow) (maps : List NameMap) (wiring : List WireRow)
+    (catches : List (String × Nat)) (readFile : String → Option Str) (lib : Lib) (o : Opts) (x : String)
+    (rest : List Step) (s : St) (R : EmbedResult) (hR : s.output = some R) :
+    runSteps rows maps wiring catches readFile lib o (.transpose (.count x) "output.embedding" :: rest) s =
+      runSteps rows maps wiring catches readFile lib o rest
+        { s with output := some { R with embedding := writtenOutput (decide (0 < countOf o x)) R.embedding } } := by
+  rw [runSteps]
+  simp only [evalCond_count]
+  by_cases h : 0 < countOf o x
+  · simp [h, writtenOutput, hR]
+  · simp [h, writtenOutput, ← hR]
+
+/-! ## the conditions of the spec guards, evaluated -/
+
+theorem lookupName_isNone_of_not_mem (maps : List NameMap) (m : NameMap) (key : String)
+    (hm : maps.find? (fun x => x.name == m.name) = some m) (hk : key ∉ m.entries.map (·.1)) :
+    (lookupName maps m.name key).isNone = true := by
+  unfold lookupName
+  rw [hm]
+  simp only
+  have : m.entries.find? (fun e => e.1 == key) = none := by
+    rw [List.find?_eq_none]
+    intro e he
+    simp only [beq_iff_eq]
+    intro h
+    exact hk (List.mem_map.mpr ⟨e, he, h⟩)
+  simp [this]
+
+/-- an unknown name makes the `lookupFails` condition true -/
+theorem evalCond_lookupFails (rows : List OptRow) (maps : List NameMap) (rt : Runtime) (o : Opts) (m : NameMap)
+    (opt : String) (hm : maps.find? (fun x => x.name == m.name) = some m)
+    (hk : textOf rows o opt ∉ m.entries.map (·.1)) :
+    evalCond rows maps rt o (.lookupFails m.name (.value opt .str)) = some true := by
+  simp [evalCond, eval, Val.truthy, lookupName_isNone_of_not_mem maps m _ hm hk]
+
+/-- an integer option below / at a bound makes the comparison guard true -/
+theorem evalCond_int_cmp (rows : List OptRow) (maps : List NameMap) (rt : Runtime) (o : Opts) (opt : String)
+    (op : BinOp) (bound : String) (n b : Int) (hn : parseIntCxx (textOf rows o opt).toList = some n)
+    (hb : parseIntCxx bound.toList = some b) (hcmp : cmpOp op (n : Rat) (b : Rat) = true)
+    (hop : op = .lt ∨ op = .le) :
+    evalCond rows maps rt o (.bin op (.value opt .int) (.lit .int bound)) = some true := by
+  rcases hop with rfl | rfl <;>
+    simp [evalCond, eval, hn, litVal, hb, Val.truthy, Val.num, hcmp]
+
+theorem evalCond_dbl_lt (rows : List OptRow) (maps : List NameMap) (rt : Runtime) (o : Opts) (opt : String)
+    (bound : String) (x b : Rat) (hx : parseNum (textOf rows o opt).toList = some x)
+    (hb : parseNum bound.toList = some b) (hcmp : x < b) :
+    evalCond rows maps rt o (.bin .lt (.value opt .dbl) (.lit .dbl bound)) = some true := by
+  simp [evalCond, eval, hx, litVal, hb, Val.truthy, Val.num, cmpOp, hcmp]
+
+/-! ## expressions depend only on the options they mention -/
+
+/-- two option sets agree on option `name` -/
+def AgreeOn (rows : List OptRow) (o o' : Opts) (name : String) : Prop :=
+  countOf o name = countOf o' name ∧ textOf rows o name = textOf rows o' name
+
+theorem eval_congr (rows : List OptRow) (maps : List NameMap) (rt : Runtime) (o o' : Opts) :
+    ∀ (e : Expr), (∀ n ∈ e.opts, AgreeOn rows o o' n) → eval rows maps rt o e = eval rows maps rt o' e
+  | .count opt, h => by
+    have := (h opt (by simp [Expr.opts])).1
+    simp [eval, this]
+  | .value opt ty, h => by
+    have h1 := (h opt (by simp [Expr.opts])).1
+    have h2 := (h opt (by simp [Expr.opts])).2
+    cases ty <;> simp [eval, h1, h2]
+  | .lookup m e, h => by
+    have := eval_congr rows maps rt o o' e (fun n hn => h n (by simpa [Expr.opts] using hn))
+    simp [eval, this]
+  | .lookupFails m e, h => by
+    have := eval_congr rows maps rt o o' e (fun n hn => h n (by simpa [Expr.opts] using hn))
+    simp [eval, this]
+  | .lit _ _, _ => by simp [eval]
+  | .const _, _ => by simp [eval]
+  | .not e, h => by
+    have := eval_congr rows maps rt o o' e (fun n hn => h n (by simpa [Expr.opts] using hn))
+    simp [eval, this]
+  | .neg e, h => by
+    have := eval_congr rows maps rt o o' e (fun n hn => h n (by simpa [Expr.opts] using hn))
+    simp [eval, this]
+  | .bin op a b, h => by
+    have ha := eval_congr rows maps rt o o' a (fun n hn => h n (by simp [Expr.opts, hn]))
+    have hb := eval_congr rows maps rt o o' b (fun n hn => h n (by simp [Expr.opts, hn]))
+    simp [eval, ha, hb]
+  | .ite c a b, h => by
+    have hc := eval_congr rows maps rt o o' c (fun n hn => h n (by simp [Expr.opts, hn]))
+    have ha := eval_congr rows maps rt o o' a (fun n hn => h n (by simp [Expr.opts, hn]))
+    have hb := eval_congr rows maps rt o o' b (fun n hn => h n (by simp [Expr.opts, hn]))
+    simp [eval, hc, ha, hb]
+  | .index0 e, h => by
+    have := eval_congr rows maps rt o o' e (fun n hn => h n (by simpa [Expr.opts] using hn))
+    simp [eval, this]
+  | .field e name, h => by
+    have := eval_congr rows maps rt o o' e (fun n hn => h n (by simpa [Expr.opts] using hn))
+    simp [eval, this]
+  | .sym _, _ => by simp [eval]
+
+/-- a parameter set built from wiring rows that do not mention option `x` is the same for any two option sets that
+    differ in `x` only -/
+theorem paramsOf_congr (wiring : List WireRow) (rows : List OptRow) (maps : List NameMap) (o o' : Opts) (x : String)
+    (hx : ∀ w ∈ wiring, x ∉ w.expr.opts) (hagree : ∀ n, n ≠ x → AgreeOn rows o o' n) :
+    paramsOf wiring rows maps o = paramsOf wiring rows maps o' := by
+  unfold paramsOf
+  apply List.map_congr_left
+  intro w hw
+  have : eval rows maps {} o w.expr = eval rows maps {} o' w.expr :=
+    eval_congr rows maps {} o o' w.expr (fun n hn => hagree n (fun e => hx w hw (e ▸ hn)))
+  simp [this]
+
 end TapkeeVerif.Cli
